@@ -29,6 +29,11 @@ enum Op {
 }
 
 thread_local! {
+    /// set by the fuzz entry: no multi-million-node warm-ups under the coverage-guided engine
+    static NO_HEAVY: std::cell::Cell<bool> = std::cell::Cell::new(false);
+}
+
+thread_local! {
     /// share of layer-A cases that open with the twin-position scenario
     static TWIN_PCT: std::cell::Cell<usize> = std::cell::Cell::new(14);
 }
@@ -411,7 +416,7 @@ fn part_selfplay(bytes: &[u8], stats: &mut Stats) -> Verdict {
     // one game in twenty-five is played on an engine whose tables are kept full: a heavy
     // middlegame search (1.4 M nodes, ended by a node deadline) before the game and before some of
     // its moves — "whatever it searched earlier in the same process"
-    let veteran = s.chance(3);
+    let veteran = s.chance(3) && !NO_HEAVY.with(|c| c.get());
     let mut heavy_nodes = 0u64;
     for ply in 0..plies {
         if veteran && (ply == 0 || s.chance(10)) {
@@ -857,6 +862,7 @@ pub fn replay(part: &str, bytes: &[u8], case: &Value, stats: &mut Stats) -> Verd
 pub fn fuzz_entry(bytes: &[u8]) -> Verdict {
     let mut st = Stats::new();
     if bytes.first().map(|b| b & 0x80 != 0).unwrap_or(false) {
+        NO_HEAVY.with(|c| c.set(true));
         part_selfplay(bytes, &mut st)
     } else {
         part_a(bytes, &mut st)
